@@ -95,6 +95,9 @@ pub fn flatten2(a: Option<String>, b: Option<String>) -> (r: Vec<String>)
 pub fn join_space(v: &Vec<String>) -> (r: String)
     ensures v@.len() == 1 ==> r@ == v@[0]@, v@.len() == 2 ==> r@ == v@[0]@ + " "@ + v@[1]@
 { unimplemented!() }
+/// `format!("{} {}", a, b)`
+#[verifier::external_body]
+pub fn join2(a: &String, b: &String) -> (r: String) ensures r@ == a@ + " "@ + b@ { unimplemented!() }
 /// R-abstract: body of position_via_transform after the offsets are known
 #[verifier::external_body]
 pub fn write_translate(element: &mut SvgElement, x: R32, y: R32) ensures final(element).name == old(element).name { unimplemented!() }
@@ -213,8 +216,24 @@ impl Position {
 //@ ensures
 //@ - r == (self.ymin is Some || self.ymax is Some || self.cy is Some || self.dy is Some)
 //@end
-    #[verifier::external_body]
-    fn position_via_transform(&self, element: &mut SvgElement) ensures final(element).name == old(element).name { unimplemented!() }
+    /// Position::x() / y(): the start of the extent when two constraints give it, else xmin / ymin, else 0 (U-geom: x_def / y_def)
+    pub uninterp spec fn px(&self) -> real;
+    pub uninterp spec fn py(&self) -> real;
+    #[verifier::external_body] pub fn x(&self) -> (r: R32) ensures val(r) == self.px() { unimplemented!() }
+    #[verifier::external_body] pub fn y(&self) -> (r: R32) ensures val(r) == self.py() { unimplemented!() }
+//@item src/position.rs :: impl Position :: fn position_via_transform
+//@ body-start
+//@ | proof { reveal_with_fuel(remove_seq, 20); }
+//@ replace[R-fmt-tag] <<<format!("translate({x}, {y})")>>> => <<<translate_fmt(x, y)>>>
+//@ replace[R-fmt-tag] <<<format!("{} {}", exist_xfrm, xy_xfrm)>>> => <<<join2(&exist_xfrm, &xy_xfrm)>>>
+//@ ensures
+//@ - final(element).name == old(element).name
+//@ - ({ let x = self.px() + or0(self.dx); let y = self.py() + or0(self.dy); let o = old(element).attrs@; let m = final(element).attrs@;
+//@      if x != 0real || y != 0real {
+//@          m.dom().contains("transform"@) && m["transform"@] == (if o.dom().contains("transform"@) { o["transform"@] + " "@ + translate_str(x, y) } else { translate_str(x, y) })
+//@          && !m.dom().contains("x"@) && !m.dom().contains("y"@) && !m.dom().contains("dx"@) && !m.dom().contains("dy"@)
+//@      } else { m == o } })     @@C18.place.via_transform @@C11.place.via_transform
+//@end
 
 //@item src/position.rs :: impl Position :: fn set_position_attrs
 //@ body-start
